@@ -1445,9 +1445,9 @@ static double to_double(const char *ddigits, int scale) {
              * unshifted value may have a lesser lsp, but no less than:
              * (2 + DBL_MIN_10_EXP - DBL_DIG) - CIF_LINE_LENGTH
              */
-#define     DBL_MANT_10_DIG (3 * (DBL_MANT_DIG  / 10))
-#define     ULT_LSP_ALT1 ((DBL_MANT_10_DIG + DBL_MANT_DIG - CIF_LINE_LENGTH) \
-                    - (((DBL_MAX_10_EXP + 1) * 2322) / 1000))
+            /* the least-significant place of the longest digit string at the greatest msp, less the additional digits */
+#define     ULT_LSP_ALT1 ((1 + DBL_MAX_10_EXP - CIF_LINE_LENGTH) \
+                    - ((((DBL_MAX_10_EXP + 1) * 3322) / 1000) - DBL_MANT_DIG))
 #define     ULT_LSP_ALT2 ((2 + DBL_MIN_10_EXP - DBL_DIG) - CIF_LINE_LENGTH)
 #if (ULT_LSP_ALT1 < ULT_LSP_ALT2)
 #define     BIGNUM_DIGITS (((DBL_MAX_10_EXP + DDIG_PER_DIG - 1) / DDIG_PER_DIG) \
